@@ -212,3 +212,17 @@ _m("C12",
    "and 1.  Non-trivial: a non-mass-action or order >= 3 reaction together with a delay or a rule.",
    _COMMON + ["names are alphanumeric SBML identifiers without leading underscore (documented export convention)",
               "an additive rule returning as an equivalent assignment rule is accepted (behavioural comparison)"])
+
+_m("C18",
+   "Hypothesis builds smooth networks (1..4 species, 1..4 reactions: mass action of order 0..4 with repeats, the four "
+   "Hill types with integer and fractional exponents in [1,3], rational / exponential / logarithmic general rates, "
+   "optional delayed products), all rate parameters named and >= 0.1, states in [0.5,10]^n, and asks for the Jacobian "
+   "or the sensitivity to one named parameter with one of the four difference schemes.  Oracle: the reference rate "
+   "equations (closed forms re-stated in 40-digit mpmath) differentiated numerically at 40 digits; error bound = the "
+   "Taylor remainder of the requested scheme for the module's step h = 0.01 (forward/backward h/2 M2, central h^2/6 M3, "
+   "fourth order h^4/30 M5, M_q = twice the maximum of the q-th derivative over a 9-point grid of the stencil) + 5e-10 "
+   "(rounding to 10 decimals) + 2e-13 sum|terms|/h (cancellation).  Orientation J[i,j] = d f_i / d x_j; the model's "
+   "parameter dictionary must be unchanged and a second call must return the same matrix.  Non-trivial: a non-symmetric "
+   "Jacobian (or a sensitivity) of a network with a non-vanishing higher derivative, so that stencil, orientation and "
+   "scheme order are observable.",
+   _COMMON + ["parameters given as numbers are turned into named parameters so that each can be addressed; dummy names are not probed"])
